@@ -144,7 +144,7 @@ func TestMakeKnown(t *testing.T) {
 		"C11/panic@.(*Context).DecodeTypeValue:slice-bounds":                           typeEdits(hx("1e 01 ffffffffffffffffff01 61 09")),
 		"C11/panic@/vng.readMetadata":                                                  lit("vng", hx("564e4700 04000000 0000000000000000 0000000000000000"), false, ""),
 		"C11/panic@/vng.readMetadata[unmarshal-of-unvalidated-value]":                  byteMuts("meta"),
-		"C11/panic@/vng.readMetadata[unmarshal-type-mismatch]":                           byteMuts("meta"),
+		"C11/panic@/vng.readMetadata[unmarshal-type-mismatch]":                         byteMuts("meta"),
 		"C11/panic@/vng[nil-metadata-node]":                                            byteMuts("meta"),
 		"C11/panic@/vng.(*PrimitiveBuilder).ReadBytes":                                 uintEdits(1<<64 - 1),
 		"C11/panic@/vng.(*DictBuilder).ReadBytes":                                      uintEdits(1<<64 - 1),
